@@ -1,5 +1,5 @@
 # Words for MANIFEST.json, per property.
-HOOK_COMMITS = []
+HOOK_COMMITS = ["12109f0"]
 
 TEXTS = {
     "C12": {
